@@ -232,6 +232,7 @@ func checkC13(c *core.Ctx) {
 			})
 		}
 	}
+	reuseLosses(c, true)
 }
 
 /* ---------------- C15 ---------------- */
@@ -280,8 +281,18 @@ func checkC15(c *core.Ctx) {
 		}
 	}
 	shapes := enum.Shapes(3, []int{1, 2, 3})
+	for _, s := range enum.Shapes(4, []int{1, 2}) {
+		if len(s) == 4 {
+			shapes = append(shapes, s)
+		}
+	}
 	if c.Thorough() {
 		shapes = enum.Shapes(4, []int{1, 2, 3})
+		for _, s := range enum.Shapes(5, []int{1, 2}) {
+			if len(s) == 5 {
+				shapes = append(shapes, s)
+			}
+		}
 	}
 	for _, s := range shapes {
 		for _, act := range c15Acts(len(s)) {
@@ -372,4 +383,5 @@ func checkC15(c *core.Ctx) {
 		}
 	}
 	_ = math.Pi
+	reuseActivations(c, true)
 }
